@@ -33,7 +33,8 @@ FRONTMON = {"engine": "frontmon"}
 ZOO = {"engine": "zoo"}
 
 PROPS = {
-    "C10": dict(PRIMMON, level="exploration", variants={"quick": ["checked", "wrapping"], "thorough": ["checked", "wrapping", "miri"]},
+    # no Miri slice for C10: even a thinned enumeration did not finish one shard within 40 minutes (DESIGN.md 11.7)
+    "C10": dict(PRIMMON, level="exploration", variants={"quick": ["checked", "wrapping"], "thorough": ["checked", "wrapping"]},
                 shards={"quick": 16, "thorough": 16},
                 assumptions=["R-prim transcribes X.691 (2015) ch. 11, 16, 17 from memory; guarded by unit vectors in vgen and by reading back own and canonical bits",
                              "bounded-exhaustive part as stated in rule; boundary families elsewhere"]),
